@@ -304,6 +304,13 @@ theorem TreeWF.prim {a b : Core} (hp : CorePrim a b) (h : TreeWF a) : TreeWF b :
       refine ts_eq (st := Core.modOwner a _ _) ?_ rfl
       exact ts_modOwner (TreeShrink.refl _) _ _ (fun _ => rfl) (fun _ => rfl)
     · exact TreeShrink.of_owners_eq rfl
+  | updateCtx ty d =>
+    refine h.shrink ?_
+    unfold updateCtx; split
+    · simp only
+      refine ts_eq (st := Core.modOwner a _ _) ?_ rfl
+      exact ts_modOwner (TreeShrink.refl _) _ _ (fun _ => rfl) (fun _ => rfl)
+    · exact TreeShrink.of_owners_eq rfl
   | setPaused o p => exact h.shrink (ts_pauseWalk _ (TreeShrink.refl _) _ _)
   | setCur cur => exact h.shrink (TreeShrink.of_owners_eq rfl)
   | logEv e he => exact h.shrink (TreeShrink.of_owners_eq rfl)
